@@ -643,6 +643,18 @@ pub fn c07(a: &Analysis, v: &mut Verdict) {
             );
         }
     }
+    // a library thread (background collector, flush helper) that died of a panic
+    for (tid, msg) in &a.hist.out.panics {
+        let role = a.hist.out.roles.get(*tid).copied();
+        if matches!(role, Some(sim::Role::Collector) | Some(sim::Role::FlushHelper)) {
+            v.add(
+                "C07",
+                "C07.panic",
+                format!("{:?}-thread-panicked", role.unwrap()),
+                format!("the {:?} thread died of a panic: {}", role.unwrap(), msg.chars().take(160).collect::<String>()),
+            );
+        }
+    }
     for p in &a.hist.teardown_panics {
         v.add("C07", "C07.teardown", "panic-in-teardown".into(), format!("a tracing call made while the thread's local storage was being torn down panicked: {}", p.chars().take(160).collect::<String>()));
     }
